@@ -434,6 +434,26 @@ static void dumpDomNode(Dump& d, const DOMNode* n, const DomDumpOpts& o) {
     }
 }
 
+// namespace lookup dump (C06): for every element (document order) and its attribute / text children the answers of
+// lookupNamespaceURI(p), lookupPrefix(u), isDefaultNamespace(u) for the given prefixes ("-" = null) and URIs
+static void dumpNsQueries(Dump& d, const DOMNode* n, const std::vector<std::string>& ps, const std::vector<std::string>& us, long& idx) {
+    if (n->getNodeType() == DOMNode::ELEMENT_NODE) {
+        std::vector<const DOMNode*> subj; subj.push_back(n);
+        DOMNamedNodeMap* at = n->getAttributes();
+        if (at && at->getLength()) subj.push_back(at->item(0));
+        for (DOMNode* c = n->getFirstChild(); c; c = c->getNextSibling()) if (c->getNodeType() == DOMNode::TEXT_NODE) { subj.push_back(c); break; }
+        for (size_t k = 0; k < subj.size(); k++) {
+            std::string l = "NSQ\t" + std::to_string(idx) + "\t" + (k == 0 ? "E" : subj[k]->getNodeType() == DOMNode::ATTRIBUTE_NODE ? "A" : "T");
+            for (size_t i = 0; i < ps.size(); i++) { const XMLCh* r = ps[i] == "-" ? subj[k]->lookupNamespaceURI(0) : subj[k]->lookupNamespaceURI(X(ps[i]).c()); l += "\t" + escN(r); }
+            for (size_t i = 0; i < us.size(); i++) { const XMLCh* r = subj[k]->lookupPrefix(X(us[i]).c()); l += "\t" + escN(r); }
+            for (size_t i = 0; i < us.size(); i++) { l += subj[k]->isDefaultNamespace(X(us[i]).c()) ? "\t1" : "\t0"; }
+            d.line(l);
+        }
+        idx++;
+    }
+    for (DOMNode* c = n->getFirstChild(); c; c = c->getNextSibling()) dumpNsQueries(d, c, ps, us, idx);
+}
+
 // ---------------------------------------------------------------------------------------------
 // In-memory entity resolution.  Keys of the map are system identifiers as written in the
 // document ("ent:<sysid>" request fields) -- looked up first literally, then after resolving
@@ -739,6 +759,7 @@ static void runParse(const Req& r, ParseOut& po, XMLGrammarPool* pool = 0, Memor
             DOMDocument* dd = p.getDocument();
             DomDumpOpts o; o.typeInfo = f.b("psvi", false); o.ids = f.b("dumpids", false);
             if (dd && done) dumpDomNode(d, dd, o);
+            if (dd && done && r.count("nsq_p")) { long idx = 0; dumpNsQueries(d, dd, split(get(r, "nsq_p"), ','), split(get(r, "nsq_u"), ','), idx); }
         } else if (api == "domls" || api == "domlsf") {
             CapDOMLS p(0, mm, pool); p.xd = &d; configDOMLS(p, f, smp);
             LSErr eh; p.getDomConfig()->setParameter(XMLUni::fgDOMErrorHandler, &eh);
@@ -755,6 +776,7 @@ static void runParse(const Req& r, ParseOut& po, XMLGrammarPool* pool = 0, Memor
             DOMDocument* dd = p.parse(&in);
             DomDumpOpts o; o.typeInfo = f.b("psvi", false); o.ids = f.b("dumpids", false);
             if (dd) dumpDomNode(d, dd, o);
+            if (dd && r.count("nsq_p")) { long idx = 0; dumpNsQueries(d, dd, split(get(r, "nsq_p"), ','), split(get(r, "nsq_u"), ','), idx); }
         } else {
             d.line("EXC\tBADAPI");
         }
